@@ -124,3 +124,27 @@ Lemma guppi_involutive t c p : let '(t', p', c') := guppi_src t c p in guppi_src
 Proof. reflexivity. Qed.
 Lemma stokes_flip_involutive nchan t c s : snd (stokes_src nchan true t (snd (stokes_src nchan true t c s)) s) = c.
 Proof. unfold stokes_src. cbn. lia. Qed.
+
+(* offset_at is the NEAREST sample, and refuses exactly when that sample lies outside [0, len]: in particular every time more than
+   half a sample before the start or after the end is refused (no truncation towards zero) *)
+Lemma offset_nearest r dt o : offset_rel r dt = Some o ->
+  (inject_Z o - (1 # 2) <= dt * r_rate r <= inject_Z o + (1 # 2))%Q /\ 0 <= o <= r_len r.
+Proof.
+  intros H. split; [|eapply offset_bounds; exact H]. unfold offset_rel in H.
+  destruct ((round_half_even (dt * r_rate r) <? 0) || (r_len r <? round_half_even (dt * r_rate r))); [discriminate|].
+  injection H as <-. apply rhe_bounds.
+Qed.
+Lemma offset_refused_before r dt : (dt * r_rate r < - (1 # 2))%Q -> offset_rel r dt = None.
+Proof.
+  intros H. unfold offset_rel. pose proof (rhe_bounds (dt * r_rate r)) as [L _].
+  set (o := round_half_even (dt * r_rate r)) in *.
+  assert (o < 0). { destruct (Z_lt_le_dec o 0) as [A|A]; [exact A|]. assert (0 <= inject_Z o)%Q by (change 0%Q with (inject_Z 0); rewrite <- Zle_Qle; exact A). lra. }
+  assert ((o <? 0) = true) as -> by (apply Z.ltb_lt; assumption). reflexivity.
+Qed.
+Lemma offset_refused_after r dt : (inject_Z (r_len r) + (1 # 2) < dt * r_rate r)%Q -> offset_rel r dt = None.
+Proof.
+  intros H. unfold offset_rel. pose proof (rhe_bounds (dt * r_rate r)) as [_ U].
+  set (o := round_half_even (dt * r_rate r)) in *.
+  assert (r_len r < o). { destruct (Z_lt_le_dec (r_len r) o) as [A|A]; [exact A|]. assert (inject_Z o <= inject_Z (r_len r))%Q by (rewrite <- Zle_Qle; exact A). lra. }
+  assert ((r_len r <? o) = true) as -> by (apply Z.ltb_lt; assumption). rewrite orb_true_r. reflexivity.
+Qed.
